@@ -214,13 +214,9 @@ func (h *harness) margin(idx int) (time.Duration, bool) {
 }
 
 func nearBoundary(m time.Duration) bool {
-	abs := func(d time.Duration) time.Duration {
-		if d < 0 {
-			return -d
-		}
-		return d
-	}
-	return abs(m) < safety || abs(m-auth.VerifExtendThreshold) < safety
+	// time only moves on between the harness reading the clock and the implementation reading it: a margin can
+	// only shrink. A session just past a boundary stays past it; only one shortly BEFORE a boundary can cross it.
+	return (m >= 0 && m < safety) || (m >= auth.VerifExtendThreshold && m-auth.VerifExtendThreshold < safety)
 }
 
 // settle: no stored session may be within the safety distance of an expiry boundary when the
@@ -704,12 +700,14 @@ func (h *harness) defaultBody(method, path string) body {
 }
 
 var margins = []time.Duration{30 * time.Minute, auth.VerifExtendThreshold + 8*second, auth.VerifExtendThreshold - 8*second, 60 * second, 8 * second,
-	-8 * second, -60 * second, -30 * time.Minute, -2 * time.Hour, -100 * time.Hour}
+	-8 * second, -60 * second, -30 * time.Minute, -2 * time.Hour, -100 * time.Hour,
+	// expired by less than a second (time only moves on: still expired whenever the request arrives)
+	-400 * time.Millisecond, -30 * time.Millisecond}
 
 // G1: every path x method under one cookie state (one history per state and path)
 func (h *harness) gridCookieStates() {
 	extra := []string{"/api/nope", "/api", "/api/", "/", "/api/auth", "/api/config/nope"}
-	states := []string{"absent", "random", "loggedout", "expired-8s", "expired-30m", "expired-2h-collected", "live", "live-near-expiry"}
+	states := []string{"absent", "random", "loggedout", "expired-400ms", "expired-8s", "expired-30m", "expired-2h-collected", "live", "live-near-expiry"}
 	for _, st := range states {
 		for _, p := range append(append([]string{}, h.paths...), extra...) {
 			h.begin()
@@ -724,6 +722,11 @@ func (h *harness) gridCookieStates() {
 					cookie = h.mustLogin()
 					if cookie >= 0 {
 						h.do(req{method: "POST", path: "/api/auth/logout", cookie: cookie, body: body{kind: "none"}})
+					}
+				case "expired-400ms":
+					cookie = h.mustLogin()
+					if cookie >= 0 {
+						h.ageTo(cookie, -400*time.Millisecond)
 					}
 				case "expired-8s":
 					cookie = h.mustLogin()
